@@ -207,6 +207,20 @@ class StrB:
     def is_concrete(self):
         return all(a[0] == "lit" for a in self.atoms)
 
+    def concrete(self):
+        """The text with escaped concrete parts written out (regex::escape), or None when a part is symbolic."""
+        out = []
+        for k, v in self.atoms:
+            v = strip(v) if k != "lit" else v
+            if isinstance(v, Char):
+                v = v.c
+            if isinstance(v, StrB):
+                v = v.text() if v.is_concrete() else None
+            if not isinstance(v, str) or k == "sym":
+                return None
+            out.append(v if k == "lit" else "".join("\\" + c if c in "\\.+*?()|[]{}^$#&-~" else c for c in v))
+        return "".join(out)
+
     def __repr__(self):
         return "\"%s\"" % self.text()
 
